@@ -384,6 +384,102 @@ func (w *World) reachableAvoidingBlocks(fn *ssa.Function, target *ssa.BasicBlock
 
 // ---- C10-X / H / U ---------------------------------------------------------------------------
 
+func emptyArm(b *ssa.BasicBlock) bool {
+	for _, ins := range b.Instrs {
+		switch ins.(type) {
+		case *ssa.Jump, *ssa.DebugRef:
+		default:
+			return false
+		}
+	}
+	return len(b.Succs) == 1
+}
+
+// constantSelection recognises `s := B; if flag { s = A }; write(s)` and `if flag { s = A } else { s = B }; write(s)`:
+// both arms are empty and meet in a block with a phi of string constants that is used only as (the operand of) writes.
+// Returns the constant chosen when the flag is true and the one chosen when it is false.
+func (w *World) constantSelection(cond, tb, fb *ssa.BasicBlock) (string, string, bool) {
+	var join, tPred, fPred *ssa.BasicBlock
+	switch {
+	case emptyArm(tb) && tb.Succs[0] == fb:
+		join, tPred, fPred = fb, tb, cond
+	case emptyArm(fb) && fb.Succs[0] == tb:
+		join, tPred, fPred = tb, cond, fb
+	case emptyArm(tb) && emptyArm(fb) && tb.Succs[0] == fb.Succs[0]:
+		join, tPred, fPred = tb.Succs[0], tb, fb
+	default:
+		return "", "", false
+	}
+	sa := w.Sinks()
+	for _, ins := range join.Instrs {
+		ph, ok := ins.(*ssa.Phi)
+		if !ok {
+			break
+		}
+		var tv, fv ssa.Value
+		for i, p := range join.Preds {
+			if p == tPred {
+				tv = ph.Edges[i]
+			}
+			if p == fPred {
+				fv = ph.Edges[i]
+			}
+		}
+		if tv == nil || fv == nil || len(join.Preds) != 2 {
+			continue
+		}
+		ts, ok1 := w.constText(tv)
+		fs, ok2 := w.constText(fv)
+		if !ok1 || !ok2 {
+			continue
+		}
+		// every (transitive) use of the phi is a write of it
+		okUse := true
+		nSinks := 0
+		var visit func(v ssa.Value, depth int)
+		visit = func(v ssa.Value, depth int) {
+			for _, ref := range liveRefs(v) {
+				if s := sa.sinkAt(join.Parent(), ref); s != nil {
+					nSinks++
+					continue
+				}
+				switch x := ref.(type) {
+				case *ssa.Convert:
+					if depth < 3 {
+						visit(x, depth+1)
+						continue
+					}
+				case *ssa.ChangeType:
+					if depth < 3 {
+						visit(x, depth+1)
+						continue
+					}
+				}
+				okUse = false
+			}
+		}
+		visit(ph, 0)
+		if okUse && nSinks > 0 {
+			return ts, fs, true
+		}
+	}
+	return "", "", false
+}
+
+// constText: a string constant or a []byte conversion of one.
+func (w *World) constText(v ssa.Value) (string, bool) {
+	if s, ok := constString(v); ok {
+		return s, true
+	}
+	if c, ok := v.(*ssa.Convert); ok {
+		return constString(c.X)
+	}
+	if s, ok := w.constBytes(v); ok {
+		return s, true
+	}
+	return "", false
+}
+
 // armText returns the concatenated constant text written in block b, and whether b does only that
 // (constant writes, then a jump).
 func (w *World) armText(fn *ssa.Function, b *ssa.BasicBlock) (string, int, bool) {
@@ -439,6 +535,16 @@ func ruleFlagUses(w *World, r *Report) {
 			continue
 		}
 		tb, fb := iff.Block().Succs[0], iff.Block().Succs[1]
+		// "conditional constant written once": the arms write nothing and only choose between two string constants
+		// that meet in a phi, which is then written
+		if xt, ht, ok := w.constantSelection(iff.Block(), tb, fb); ok {
+			if strings.ReplaceAll(xt, " />", ">") == ht && xt != ht {
+				r.OK(fmt.Sprintf("%s %q/%q", key, xt, ht), pos, "the flag selects between two constants that differ exactly by ' />' versus '>'; the selected constant is written once")
+			} else {
+				r.Bad(fmt.Sprintf("%s %q/%q", key, xt, ht), pos, "the constants selected by the XHTML flag differ by more than ' />' versus '>'")
+			}
+			continue
+		}
 		tt, tn, tok := w.armText(fn, tb)
 		ft, fnn, fok := w.armText(fn, fb)
 		if !tok || !fok {
@@ -585,7 +691,47 @@ func ruleFlagUses(w *World, r *Report) {
 			}
 		}
 		if guard {
-			r.OK(key+" (URL guard)", pos, "Unsafe || !IsDangerousURL(x)")
+			// the two outcomes of the guard must differ by the URL write only: the write arm W is entered from
+			// "Unsafe" and from "not dangerous", has a single successor J, and the "dangerous" edge goes straight to J
+			// (no other write, no return on the skipping arm)
+			ub := iff.Block()
+			wb := ub.Succs[0]
+			fi := fb.Instrs[len(fb.Instrs)-1].(*ssa.If)
+			dangerousTrue, dangerousFalse := fb.Succs[0], fb.Succs[1]
+			if u, ok := fi.Cond.(*ssa.UnOp); ok && u.Op == token.NOT {
+				dangerousTrue, dangerousFalse = dangerousFalse, dangerousTrue
+			}
+			// J = the target of the skipping edge; every path from the write arm must reach J before any return,
+			// and the skipping edge itself does nothing (it IS the edge into J)
+			j := dangerousTrue
+			shapeOK := dangerousFalse == wb && wb != j
+			if shapeOK {
+				seen := map[*ssa.BasicBlock]bool{}
+				stack := []*ssa.BasicBlock{wb}
+				for len(stack) > 0 {
+					x := stack[len(stack)-1]
+					stack = stack[:len(stack)-1]
+					if seen[x] || x == j {
+						continue
+					}
+					seen[x] = true
+					if isReturnBlock(x) || len(x.Succs) == 0 {
+						shapeOK = false
+					}
+					stack = append(stack, x.Succs...)
+				}
+				// J must not be entered from anywhere else than the write arm and the skipping edge (no third outcome)
+				for _, p := range j.Preds {
+					if p != fb && !seen[p] {
+						shapeOK = false
+					}
+				}
+			}
+			if shapeOK {
+				r.OK(key+" (URL guard)", pos, "Unsafe || !IsDangerousURL(x); both outcomes rejoin right after the URL write")
+			} else {
+				r.Bad(key+" (URL guard)", pos, "the outcomes of the dangerous-URL guard do not rejoin right after the URL write (the skipping arm returns early or does something else): safe and unsafe output then differ by more than the URL itself (e.g. a title or attributes are lost)")
+			}
 		} else {
 			r.Unknown(key, pos, "Unsafe is read in a function that is neither a raw-HTML renderer nor a dangerous-URL guard: a new dependency on the option must be reviewed")
 		}
